@@ -197,6 +197,9 @@ def strategy(ctx):
         return order_probe(allow_call_args=False)
     if ctx.mode == "scope":
         return scope_probe()
+    if ctx.mode == "notation":
+        from . import c07_notation
+        return c07_notation.random_case({"postfix_on_right_operand": True}, 6)
     return progen.programs(features=ctx.features, size=ctx.size)
 
 
@@ -247,6 +250,7 @@ def run_case(ctx, prog, ev):
     bad, res = judge(ctx, prog, src, ref, engines=engines)
     st_ = ref.stats
     nontrivial = (prog["features"].get("effectful_args", 0) > 0 or prog["features"].get("order_probe", 0) > 0 or
+                  prog["features"].get("random", 0) > 0 or
                   st_["wraps"] > 0 or st_["short_circuits"] > 0 or st_["max_shadow_depth"] >= 2 or
                   prog["features"].get("int_boundary_literal", 0) > 0)
     real = [b for b in bad if b[1] not in ("inconclusive", "stuck")]
@@ -486,7 +490,8 @@ def main(tier):
 
     # (a) (c) (d) generated programs
     plan = [("progen", 900 if tier == "quick" else 15000), ("order", 400 if tier == "quick" else 6000),
-            ("order_nc", 400 if tier == "quick" else 6000), ("scope", 100 if tier == "quick" else 1500)]
+            ("order_nc", 400 if tier == "quick" else 6000), ("scope", 100 if tier == "quick" else 1500),
+            ("notation", 400 if tier == "quick" else 6000)]
     for mode, total in plan:
         results = harness.run_workers("pbt.c02_semantics", tier, total, opts={"mode": mode})
         for r in results:
